@@ -332,6 +332,22 @@ func ParFor(n int, f func(worker, i int)) {
 	wg.Wait()
 }
 
+// ParFor is the package-level ParFor with a panic guard: a panic inside the code under test is recorded as a
+// violation (no property permits a crash on an in-domain input) and the enumeration continues.
+func (r *Report) ParFor(n int, f func(worker, i int)) {
+	ParFor(n, func(w, i int) {
+		defer func() {
+			if p := recover(); p != nil {
+				buf := make([]byte, 2048)
+				buf = buf[:runtime.Stack(buf, false)]
+				r.Violation("panic", fmt.Sprintf("index %d: %v\n%s", i, p, buf), map[string]string{"op": "panic", "index": strconv.Itoa(i)})
+			}
+		}()
+
+		f(w, i)
+	})
+}
+
 // Catch runs f and returns the recovered panic value, if any.
 func Catch(f func()) (p any) {
 	defer func() { p = recover() }()
